@@ -341,7 +341,8 @@ def atheris_runner(tier, shard, nshards, seed, deadline, absorb):
                 with open(os.path.join(corpus, f"seed{k}"), "wb") as fh:
                     fh.write(bytes([TARGETS.index(target) % 256, 0, 6]) + text.encode()[:200])
                 k += 1
-    budget = max(20, min(int(os.environ.get("VERIF_ATHERIS_S", "240")), int(deadline - time.time()) - 60))
+    default = "240" if tier == "thorough" else "12"
+    budget = max(5, min(int(os.environ.get("VERIF_ATHERIS_S", default)), int(deadline - time.time()) - 60))
     verif = os.path.dirname(os.path.dirname(os.path.abspath(__file__)))
     cmd = [sys.executable, "-B", os.path.join(verif, "fuzz", "fuzz_text.py"), "--out", out, corpus,
            f"-seed={seed % 2147483647 or 1}", f"-max_total_time={budget}", "-max_len=512", "-print_final_stats=0"]
@@ -369,7 +370,7 @@ def atheris_runner(tier, shard, nshards, seed, deadline, absorb):
 
 SUBS = [
     Sub("soup", judge, strategy=soup_st, quick=12000, thorough=200000, shards_thorough=64),
-    Sub("atheris", judge, runner=atheris_runner, quick=0, thorough=1, shards_quick=0, shards_thorough=16,
+    Sub("atheris", judge, runner=atheris_runner, quick=1, thorough=1, shards_quick=4, shards_thorough=16,
         minimise=True),
     Sub("extremes", judge_extreme, enum=enum_extremes, quick=1, thorough=1, shards_quick=16, shards_thorough=32,
         minimise=False),
@@ -387,8 +388,8 @@ KNOWN_WITNESS = {
 }
 
 MANIFEST = {
-    "engine": "hypothesis (+ atheris coverage-guided campaign in the thorough tier, fuzz/fuzz_text.py)",
-    "technique": "property-based fuzzing: Hypothesis token-soup / mutated-valid-text generators over a vocabulary extracted from the library source, enumerated size extremes of every recursive or regex front end, exception bucketing by innermost library frame, and a coverage-guided atheris campaign (thorough)",
+    "engine": "hypothesis + atheris (coverage-guided campaign: 4 jobs x 12 s in the quick tier, 16 jobs x 240 s in the thorough tier, fuzz/fuzz_text.py)",
+    "technique": "property-based fuzzing: Hypothesis token-soup / mutated-valid-text generators over a vocabulary extracted from the library source, enumerated size extremes of every recursive or regex front end, exception bucketing by innermost library frame, and a coverage-guided atheris (libFuzzer) campaign through a structured decoder",
     "text": "exploration: tens of thousands (quick) / hundreds of thousands (thorough) generated texts through the 11 constructors and 3 config functions on ios / nxos / asa returned or raised ValueError/TypeError within the non-termination alarm, and every returned object rendered text its constructor accepted again, apart from the listed known findings",
     "note": "trusted: the 20 s alarm as non-termination detector (re-run 3 times); re-accept clause judged on ios and nxos only; cannot prove termination or absence of catastrophic backtracking, only bound it on generated and adversarially repeated inputs",
 }
